@@ -95,6 +95,10 @@ def handle (args out : List String) : Verdict :=
           let sorted (xs : List String) := xs.foldr (fun x acc => let (lo, hi) := acc.span (· < x); lo ++ x :: hi) []
           let finalOk := sorted expFinal == sorted finalAddrs
           (sim.bad.isEmpty && finalOk, " ".intercalate sim.bad ++ (if finalOk then "" else s!" final-servers:expected={sorted expFinal}:got={sorted finalAddrs}"))
+        else if op == "fault" then
+          -- a storage fault hit one removal: at most one outdated server per fault may survive the pass
+          let faults := ((ieff.splitOn ",").filter fun e => e.startsWith "fault").length
+          (decide (finalAddrs.length ≤ faults), s!"fault:survivors={finalAddrs.length}:faults={faults}")
         else
           -- race: client 1 refreshes its server during the pass: it must survive; the other planted servers are removed
           -- exactly when they were not written since the cutoff the pass computed at its start
